@@ -347,3 +347,39 @@ func H_C13_repeated_exports() {
 	verifAssert(o1.Count() == n && o2.Count() == n && l1.Count() == n && l2.Count() == n, "modifying an exported map/slice does not change any container")
 	verifReach("end")
 }
+
+// trees holding user-defined containers (structs embedding List/Object) and nil elements: the export is
+// plain at every depth all the same, and Slice()/Dict() keep every element, nil included
+func H_C13_derived_and_nil_elements() {
+	x := nondetInt()
+	dl := hDerivedList(x, nil)
+	do := hDerivedObject("q", x, "n", nil)
+	var c any
+	isList := nondetIntRange(0, 1) == 0
+	if isList {
+		c = NewList(nil, dl, do, NewList(do), nil)
+	} else {
+		c = NewObject("n", nil, "l", dl, "o", do, "in", NewObject("d", dl))
+	}
+	before := hSnapAny(c)
+	var nat any
+	if isList {
+		nat = c.(List).NativeSlice()
+	} else {
+		nat = c.(Object).NativeDict()
+	}
+	nm, ok := hNativeSnap(nat)
+	verifAssert(ok, "Native* contains only nil, bool, int, float64, string, []any, map[string]any at every depth")
+	verifAssert(hExact(before, nm), "Native* is deep-equal to the container's content")
+	if isList {
+		l := c.(List)
+		s := l.Slice()
+		verifAssert(len(s) == 5 && s[0] == nil && s[4] == nil && s[1] == any(dl) && s[2] == any(do), "Slice holds exactly what Get returns per index (containers by identity)")
+	} else {
+		o := c.(Object)
+		d := o.Dict()
+		v, has := d["n"]
+		verifAssert(len(d) == 4 && has && v == nil && d["l"] == any(dl) && d["o"] == any(do), "Dict holds exactly what Get returns per key (containers by identity)")
+	}
+	verifReach("end")
+}
